@@ -50,35 +50,49 @@ def norm(s):
 
 
 def facts(ctx):
-    """T2: code-shape facts the models assume."""
+    """T2: code-shape facts the models assume.
+
+    Semantic (obligation): the pass sequence of CompileCircuit, extracted as a
+    call sequence (same-package helpers inlined, receivers by type), not as
+    text.  Everything else is ADVISORY: its semantic content is decided by a
+    correspondence or oracle of this check (named in each advisory); a drift
+    only widens the search."""
+    seq = ctx.callseq("compiler/ssa", "Program.CompileCircuit",
+                      methods=["ConstPropagate", "ShortCircuitXORZero", "Prune", "Compile"])
+    got = [x.split(".")[-1] for x in seq] if isinstance(seq, list) else seq
+    ctx.fact("pass sequence of CompileCircuit (call sequence)", got,
+             ["ConstPropagate", "ShortCircuitXORZero", "Prune", "Compile"])
     body = vlib.go_func_body("compiler/ssa/circuitgen.go", r"\(prog \*Program\) CompileCircuit") or ""
-    calls = re.findall(r"cc\.(ConstPropagate|ShortCircuitXORZero|Prune|Compile)\(\)", body)
-    ctx.fact("pass list of CompileCircuit", calls, ["ConstPropagate", "ShortCircuitXORZero", "Prune", "Compile"])
     m = re.search(r"if params\.OptPruneGates \{(.*?)\n\t\}", body, flags=re.S)
-    ctx.fact("Prune is the only pass guarded by OptPruneGates",
-             bool(m) and "cc.Prune()" in m.group(1) and "ConstPropagate" not in m.group(1), True)
+    ctx.advise("Prune is the only pass guarded by OptPruneGates [decided by: hand-replayed pipeline = CompileCircuit "
+               "gate for gate, prune off and on]",
+               bool(m) and "cc.Prune()" in m.group(1) and "ConstPropagate" not in m.group(1), True)
     comp = vlib.go_func_body("compiler/circuits/compiler.go", r"\(cc \*Compiler\) Compile\(") or ""
     m = re.search(r"if cc\.Params\.Target == utils\.TargetGMW \{\s*sort\.SliceStable\(cc\.assigned, func\(i, j int\) bool \{(.*?)\}\)\s*\}",
                   comp, flags=re.S)
-    ctx.fact("Compile's level sort (GMW target): comparator", norm(m.group(1)) if m else None,
-             "gi := cc.assigned[i] gj := cc.assigned[j] if gi.Level != gj.Level { return gi.Level < gj.Level } "
-             "return gi.Op == circuit.AND && gj.Op != circuit.AND")
+    ctx.advise("Compile's level sort (GMW target): comparator text [decided by: compile-gmw pass-model tie, oracle "
+               "c09-compile-order-not-sorted]", norm(m.group(1)) if m else None,
+               "gi := cc.assigned[i] gj := cc.assigned[j] if gi.Level != gj.Level { return gi.Level < gj.Level } "
+               "return gi.Op == circuit.AND && gj.Op != circuit.AND")
     gates = vlib.repo_file("compiler/circuits/gates.go")
-    ctx.fact("Gate.Assign gives the output wire level Level+1",
-             "g.O.Assign(cc, g.Level+1)" in gates and gates.count("g.Level = level") == 2, True)
+    ctx.advise("Gate.Assign gives the output wire level Level+1 [decided by: oracle c09-compile-levels-not-strict on "
+               "every compiled circuit, compile pass-model tie]",
+               "g.O.Assign(cc, g.Level+1)" in gates, True)
     nw = vlib.repo_file("gmw/network.go")
     m = re.search(r"for i := 0; i < numLevels; i\+\+ \{(.*?)\n\t\}\n", nw, flags=re.S)
     sched = m.group(1) if m else ""
-    ctx.fact("gmw.Network.Run schedule: per level the non-AND gates, then the AND batch",
-             [sched.find("range rest[i]") >= 0, 0 <= sched.find("range rest[i]") < sched.find("andBatchFlush(ands[i])")],
-             [True, True])
+    ctx.advise("gmw.Network.Run schedule text: per level the non-AND gates, then the AND batch [the real GMW run is "
+               "tied by C10; here the schedule theorem is exercised on a replica, op `sort g`]",
+               [sched.find("range rest[i]") >= 0, 0 <= sched.find("range rest[i]") < sched.find("andBatchFlush(ands[i])")],
+               [True, True])
     mul = vlib.go_func_body("compiler/circuits/circ_multiplier.go", r"NewMultiplier\(") or ""
-    ctx.fact("NewMultiplier dispatch (GMW: Wallace; Yao: Karatsuba with threshold table when < 8)",
-             ["c.Params.Target == utils.TargetGMW" in mul and "NewWallaceMultiplier" in mul,
-              "arrayTreshold < 8" in mul, "NewKaratsubaMultiplier(c, arrayTreshold" in mul], [True, True, True])
+    ctx.advise("NewMultiplier dispatch text (GMW: Wallace; Yao: Karatsuba, threshold table when < 8) [decided by: "
+               "simulation oracle over thresholds and targets]",
+               ["c.Params.Target == utils.TargetGMW" in mul and "NewWallaceMultiplier" in mul,
+                "arrayTreshold < 8" in mul, "NewKaratsubaMultiplier(c, arrayTreshold" in mul], [True, True, True])
     div = vlib.go_func_body("compiler/circuits/circ_divider.go", r"NewUDivider\(") or ""
-    ctx.fact("NewUDivider dispatch (GMW: Goldschmidt; Yao: long division)",
-             ["NewUDividerGoldschmidtFast" in div, "NewUDividerLong" in div], [True, True])
+    ctx.advise("NewUDivider dispatch text (GMW: Goldschmidt; Yao: long division) [decided by: simulation oracle over "
+               "targets]", ["NewUDividerGoldschmidtFast" in div, "NewUDividerLong" in div], [True, True])
 
 
 def pair_results(ctx, ops, out, meta, label):
@@ -102,8 +116,9 @@ def pair_results(ctx, ops, out, meta, label):
         if info.get("witness"):
             # executed witness (cross-target pair): Lean model outputs, not a checker pair
             f = dict(x.split("=", 1) for x in b.split(";") if "=" in x)
-            ctx.coverage["inexact_witness_executed"] = {
-                "what": "uint7 a/b, a%b on a=127, b=13: real Yao and GMW circuits evaluated by the compiled Lean model",
+            ctx.coverage["former_inexact_witness_executed"] = {
+                "what": "uint7 a/b, a%b on a=127, b=13 (differed before 776d360): real Yao and GMW circuits evaluated by "
+                        "the compiled Lean model",
                 "lean_model_yao": f.get("c"), "lean_model_gmw": f.get("c2"), "differ": f.get("c") != f.get("c2")}
             continue
         verdict = b.split(";", 1)[0].replace("chk=", "")
@@ -191,11 +206,11 @@ def run(ctx):
         ctx.coverage["pass_model_ops"] = npass
         ctx.oblige("pass models (Model/Passes.lean) were run against the real ConstPropagate / ShortCircuitXORZero / "
                    "Prune / Compile on dumped builder graphs (%s)" % npass, all(v > 0 for v in npass.values()), str(npass))
-        need = ["feat_*", "feat_/", "feat_%", "feat_if", "feat_for", "feat_identity", "feat_dead", "feat_<<", "feat_>>",
+        need = ["feat_rawdiv", "programs_with_divisor_probe", "feat_*", "feat_/", "feat_%", "feat_if", "feat_for", "feat_identity", "feat_dead", "feat_<<", "feat_>>",
                 "feat_cmp", "feat_cast", "programs_exhaustive", "programs_sampled", "pair_ops_raw-on", "pair_ops_off-on"]
         missing = [k for k in need if not c.get(k)]
         ctx.oblige("generator reached every feature class", not missing, "missing: %s" % missing)
-        if ctx.broken and not ctx.fails:
+        if ctx.widen:
             # widened search for a concrete differing input: more programs,
             # several seeds, generated programs only
             for s in range(ctx.seed + 7000, ctx.seed + 7004):
@@ -206,7 +221,8 @@ def run(ctx):
     ctx.coverage["rule"] = (
         "programs: fixed corpus (hand-written + repo examples/testsuite) + typed random MPCL programs (uintN/intN, "
         "+ - * / % & | ^ &^, constant shifts, comparisons, && || !, if/else, for, typed constants, algebraic identities, "
-        "dead code, mixed argument widths); per program 12 real compilations {prune off,on} x {thr 0,8,9,21,64 | GMW} "
+        "dead code, mixed argument widths; divisors are forced non-zero (d|1) except in the rawdiv flavour, which "
+        "comes with a divisor probe); per program 12 real compilations {prune off,on} x {thr 0,8,9,21,64 | GMW} "
         "+ 8 staged compilations; distinct = distinct checker pair op lines whose two circuits differ in size")
     ctx.assumptions += [
         "Lean code generation is trusted for running the proved checker natively (drv_c09)",
@@ -237,7 +253,7 @@ def run(ctx):
         "(= prune on), and prune off -> on for each multiplier threshold; a validated pair is equivalent for ALL inputs. "
         "C09_levels / C09_gmw_schedule: Compile's (level, AND-first) sort and the GMW (AND-depth, non-AND-first) schedule "
         "are topological reorderings and leave evaluation unchanged. Oracle: every configuration simulated against the "
-        "base configuration (Yao, no prune, default threshold). Known finding: the GMW-target Goldschmidt divider is "
-        "inexact and differs from the Yao long divider (Lean witness on uint2 a/0; 127/13 executed). Two further "
-        "divider defects found by this check were fixed in /repo (90ed06e, dcb521a) and are now regression-tested "
-        "by the fixed corpus (mod-const, sdiv-const-narrow, udiv-const-operand, rps.mpcl).")
+        "base configuration (Yao, no prune, default threshold). Known finding (narrow): a division by ZERO gives "
+        "different values under the two targets (Lean witness on uint2 a/0), matched only when the divisor probe shows a "
+        "zero divisor on every differing input. Three GMW-divider defects found by this check were fixed in /repo "
+        "(90ed06e, dcb521a, 776d360) and are regression-tested by the fixed corpus and the uint7 probe.")
